@@ -1,8 +1,11 @@
 package checks
 
 import (
+	"time"
+
 	"context"
 	"fmt"
+	"github.com/codenotary/immudb/pkg/truncator"
 	"strings"
 
 	"github.com/codenotary/immudb/embedded/logger"
@@ -61,6 +64,20 @@ func c14bBody(r *simcore.Run) {
 	}
 	r.Sched.SetSwitchPct(r.Pick(100, 50, 20))
 
+	// layer C: the retention loop of pkg/truncator chooses the cuts by the (simulated) clock
+	useLoop := r.Pct(40)
+	retention := time.Duration(r.Pick(24, 48)) * time.Hour
+	var loop *truncator.Truncator
+	loopRuns := 0
+	if useLoop {
+		loop = truncator.NewTruncator(d, retention, time.Duration(r.Pick(1, 2, 5))*time.Hour, &c14cLogger{n: &loopRuns, r: r})
+		if err := loop.Start(); err != nil {
+			r.Violation("truncator-start", "", "the truncator does not start: %v", err)
+		}
+		r.Yield("c14c-truncator-started")
+		r.Defer(func() { loop.Stop() })
+		r.Logf("retention loop: retention %v", retention)
+	}
 	var kvs, rows, docs []c14bItem
 	seq := 0
 	pad := func(n int) string { return strings.Repeat("x", 20+r.Intn(40)) + fmt.Sprint(n) }
@@ -68,6 +85,9 @@ func c14bBody(r *simcore.Run) {
 		return func() {
 			for i := 0; i < n; i++ {
 				r.Yield("c14b-write")
+				if useLoop {
+					r.Sched.Sleep(time.Duration(r.Pick(1, 3, 5, 5)) * time.Hour) // (the scheduler calls a run stuck after 6 idle simulated hours)
+				}
 				seq++
 				id := seq
 				switch r.Intn(3) {
@@ -141,16 +161,47 @@ func c14bBody(r *simcore.Run) {
 		name := fmt.Sprintf("w%d", w)
 		tasks = append(tasks, r.Sched.Go(name, writer(name, 3+r.Intn(8))))
 	}
-	tasks = append(tasks, r.Sched.Go("truncator", func() {
-		for i := 0; i < 1+r.Intn(3); i++ {
-			r.Yield("c14b-truncate")
-			truncate()
-		}
-	}))
+	if !useLoop {
+		tasks = append(tasks, r.Sched.Go("truncator", func() {
+			for i := 0; i < 1+r.Intn(3); i++ {
+				r.Yield("c14b-truncate")
+				truncate()
+			}
+		}))
+	}
 	for _, t := range tasks {
 		t.Join()
 	}
-	if truncations == 0 {
+	if useLoop {
+		// let the loop see the last writes age, then stop it
+		for h := r.Pick(2, 26, 50); h > 0; h -= 5 {
+			r.Sched.Sleep(time.Duration(min(h, 5)) * time.Hour)
+		}
+		if err := loop.Stop(); err != nil {
+			r.Violation("truncator-stop", "", "stopping the truncator failed: %v", err)
+		}
+		// every truncation so far was planned for a time not later than the start of the day
+		// (now - retention): whatever is younger must be readable. Transaction times never decrease.
+		now := time.Now().Add(-retention)
+		limit := time.Date(now.Year(), now.Month(), now.Day(), 0, 0, 0, 0, now.Location()).Unix()
+		st, _ := d.CurrentState()
+		cut = st.TxId + 1
+		for id := uint64(1); id <= st.TxId; id++ {
+			tx, err := d.TxByID(ctx, &schema.TxRequest{Tx: id})
+			if err != nil {
+				r.Violation("read-tx", "", "TxByID(%d) after the retention loop failed: %v", id, err)
+			}
+			if tx.Header.Ts > limit {
+				cut = id
+				break
+			}
+		}
+		if loopRuns > 0 {
+			r.Probe("c14c-retention-loop-truncated")
+			r.Fault("value-log-truncation")
+		}
+		r.Logf("retention loop: %d truncation(s) completed; everything from tx %d of %d on must be readable", loopRuns, cut, st.TxId)
+	} else if truncations == 0 {
 		truncate()
 	}
 
@@ -222,5 +273,26 @@ func c14bBody(r *simcore.Run) {
 	}
 	verify("after restart")
 	r.Sig("c14b", truncations, cut > 0, len(kvs), len(rows), len(docs))
-	r.Sample(map[string]interface{}{"layer": "database truncator", "truncations": truncations, "last_cut": cut, "kv": len(kvs), "rows": len(rows), "documents": len(docs)})
+	r.Sample(map[string]interface{}{"layer": "database truncator", "retention_loop": useLoop, "loop_truncations": loopRuns, "truncations": truncations, "last_cut": cut, "kv": len(kvs), "rows": len(rows), "documents": len(docs)})
 }
+
+// c14cLogger counts the truncations the retention loop completed.
+type c14cLogger struct {
+	logger.Logger
+	n *int
+	r *simcore.Run
+}
+
+func (l *c14cLogger) Infof(f string, a ...interface{}) {
+	if strings.HasPrefix(f, "finished truncating") {
+		*l.n++
+	}
+	l.r.Logf("truncator: "+f, a...)
+}
+func (l *c14cLogger) Errorf(f string, a ...interface{}) {
+	m := fmt.Sprintf(f, a...)
+	l.r.Logf("truncator: ERROR %s", m)
+}
+func (l *c14cLogger) Warningf(f string, a ...interface{}) {}
+func (l *c14cLogger) Debugf(f string, a ...interface{})   {}
+func (l *c14cLogger) Close() error                        { return nil }
